@@ -49,6 +49,9 @@ func (t *SharedTable) Close() { syscall.Munmap(t.data) }
 // Count returns the number of used entries.
 func (t *SharedTable) Count() int64 { return int64(atomic.LoadUint64(&t.hdr[0])) }
 
+// NextItem hands out work item indices to the processes sharing the table (atomic counter in the header).
+func (t *SharedTable) NextItem() int64 { return int64(atomic.AddUint64(&t.hdr[2], 1)) - 1 }
+
 // SetFull / IsFull: a worker that could not insert marks the table (all workers then report it).
 func (t *SharedTable) IsFull() bool { return t.Full || atomic.LoadUint64(&t.hdr[1]) != 0 }
 
